@@ -413,4 +413,675 @@ Proof.
   - intros E. inversion E; reflexivity.
 Qed.
 
+
+(* ================================================================== *)
+(*  A. allocation / frame                                              *)
+(* ================================================================== *)
+
+Lemma frame_ok_same (h : heap) (r : res nat) : (forall id, r <> Ok id) -> frame_ok h (h, r).
+Proof.
+  intros Hr. unfold frame_ok; cbn [fst snd]. split; [apply extends_refl|]. split; [auto|]. split.
+  - intros id E. exfalso. apply (Hr id E).
+  - reflexivity.
+Qed.
+
+Lemma frame_ok_app (h l : heap) id :
+  length h <= id -> S id = length (h ++ l) -> frame_ok h (h ++ l, Ok id).
+Proof.
+  intros H1 H2. unfold frame_ok; cbn [fst snd]. split; [exists l; reflexivity|]. split.
+  - intros i n Hi. apply nth_error_snoc_old. exact Hi.
+  - split.
+    + intros id' E. inversion E; subst id'. lia.
+    + intros [E|E]; discriminate.
+Qed.
+
+Theorem h_op1_frame (h : heap) x f mk name : frame_ok h (h_op1 h x f mk name).
+Proof.
+  destruct (h_op1 h x f mk name) as [h' r] eqn:E. apply h_op1_inv in E. destruct r as [id| |].
+  - destruct E as (xv & v & _ & _ & -> & ->). apply frame_ok_app; [lia|]. rewrite app_length. cbn. lia.
+  - subst h'. apply frame_ok_same. intros id; discriminate.
+  - subst h'. apply frame_ok_same. intros id; discriminate.
+Qed.
+
+Theorem h_cmp_frame (h : heap) b x u name : frame_ok h (h_cmp h b x u name).
+Proof.
+  destruct (h_cmp h b x u name) as [h' r] eqn:E. apply h_cmp_inv in E. destruct r as [id| |].
+  - destruct E as (xv & uv & v & _ & _ & _ & -> & ->). apply frame_ok_app; [lia|]. rewrite app_length. cbn. lia.
+  - subst h'. apply frame_ok_same. intros id; discriminate.
+  - subst h'. apply frame_ok_same. intros id; discriminate.
+Qed.
+
+Theorem h_elsel_frame (h : heap) b x u name : frame_ok h (h_elsel h b x u name).
+Proof.
+  destruct (h_elsel h b x u name) as [h' r] eqn:E. apply h_elsel_inv in E. destruct r as [id| |].
+  - destruct E as (xv & uv & v & _ & _ & _ & -> & ->). apply frame_ok_app; [lia|]. rewrite app_length. cbn. lia.
+  - subst h'. apply frame_ok_same. intros id; discriminate.
+  - subst h'. apply frame_ok_same. intros id; discriminate.
+Qed.
+
+Theorem h_patch_frame (h : heap) x index p name : frame_ok h (h_patch h x index p name).
+Proof.
+  destruct (h_patch h x index p name) as [h' r] eqn:E. apply h_patch_inv in E. destruct r as [id| |].
+  - destruct E as (xv & uv & v & _ & _ & _ & -> & ->). apply frame_ok_app; [lia|]. rewrite app_length. cbn. lia.
+  - subst h'. apply frame_ok_same. intros id; discriminate.
+  - subst h'. apply frame_ok_same. intros id; discriminate.
+Qed.
+
+Theorem h_concat_frame (h : heap) xs dim name : frame_ok h (h_concat h xs dim name).
+Proof.
+  destruct (h_concat h xs dim name) as [h' r] eqn:E. apply h_concat_inv in E. destruct r as [id| |].
+  - destruct E as (vs & v & _ & _ & -> & ->). apply frame_ok_app; [lia|]. rewrite app_length. cbn. lia.
+  - subst h'. apply frame_ok_same. intros id; discriminate.
+  - subst h'. apply frame_ok_same. intros id; discriminate.
+Qed.
+
+(* broadcastForBinaryOp: two appended nodes, ids are the next two positions *)
+Theorem h_bcast2_frame (h : heap) x u s1 s2 :
+  let hr := h_bcast2 h x u s1 s2 in
+  extends h (fst hr) /\
+  (forall b1 b2, snd hr = Ok (b1, b2) -> b1 = length h /\ b2 = S (length h) /\ length (fst hr) = S (S (length h))) /\
+  (snd hr = Err \/ snd hr = Panic -> fst hr = h).
+Proof.
+  cbn zeta. destruct (h_bcast2 h x u s1 s2) as [h2 r] eqn:E. apply h_bcast2_inv in E. cbn [fst snd].
+  destruct r as [[b1 b2]| |].
+  - destruct E as (xv & uv & v1 & v2 & _ & _ & _ & _ & -> & -> & ->). split; [eexists; reflexivity|]. split.
+    + intros b1 b2 Eb. inversion Eb; subst. rewrite !app_length. cbn. repeat split; lia.
+    + intros [X|X]; discriminate.
+  - subst h2. split; [apply extends_refl|]. split; [intros b1 b2 X; discriminate|reflexivity].
+  - subst h2. split; [apply extends_refl|]. split; [intros b1 b2 X; discriminate|reflexivity].
+Qed.
+
+Theorem h_binop_frame (h : heap) x u s1 s2 f edges name : frame_ok h (h_binop h x u s1 s2 f edges name).
+Proof.
+  destruct (h_binop h x u s1 s2 f edges name) as [h' r] eqn:E. apply h_binop_inv in E. destruct r as [id| |].
+  - destruct E as (xv & uv & v1 & v2 & v & _ & _ & _ & _ & _ & -> & ->).
+    apply frame_ok_app; [lia|]. rewrite app_length. cbn. lia.
+  - subst h'. apply frame_ok_same. intros id; discriminate.
+  - subst h'. apply frame_ok_same. intros id; discriminate.
+Qed.
+
+Theorem h_arith_frame (h : heap) b x u name : frame_ok h (h_arith h b x u name).
+Proof.
+  unfold h_arith. destruct (valOf h x) as [xv|]; [destruct (valOf h u) as [uv|]|].
+  - apply h_binop_frame.
+  - apply frame_ok_same. intros id; discriminate.
+  - apply frame_ok_same. intros id; discriminate.
+Qed.
+
+Theorem h_dot_frame (h : heap) x u name : frame_ok h (h_dot h x u name).
+Proof.
+  unfold h_dot. destruct (valOf h x) as [xv|]; [destruct (valOf h u) as [uv|]|].
+  - destruct (validateDotProductDims (zdims xv) (zdims uv)).
+    + apply h_binop_frame.
+    + apply frame_ok_same. intros id; discriminate.
+  - apply frame_ok_same. intros id; discriminate.
+  - apply frame_ok_same. intros id; discriminate.
+Qed.
+
+Theorem h_matmul_frame (h : heap) x u name : frame_ok h (h_matmul h x u name).
+Proof.
+  unfold h_matmul. destruct (valOf h x) as [xv|]; [destruct (valOf h u) as [uv|]|].
+  - destruct (validateMatMulDims (zdims xv) (zdims uv)).
+    + apply h_binop_frame.
+    + apply frame_ok_same. intros id; discriminate.
+  - apply frame_ok_same. intros id; discriminate.
+  - apply frame_ok_same. intros id; discriminate.
+Qed.
+
+(* the instances of h_op1 *)
+Corollary h_slice_frame (h : heap) x index name : frame_ok h (h_slice h x index name).
+Proof. apply h_op1_frame. Qed.
+Corollary h_transpose_frame (h : heap) x name : frame_ok h (h_transpose h x name).
+Proof. apply h_op1_frame. Qed.
+Corollary h_reshape_frame (h : heap) x shape name : frame_ok h (h_reshape h x shape name).
+Proof. apply h_op1_frame. Qed.
+Corollary h_unsqueeze_frame (h : heap) x dim name : frame_ok h (h_unsqueeze h x dim name).
+Proof. apply h_op1_frame. Qed.
+Corollary h_squeeze_frame (h : heap) x dim name : frame_ok h (h_squeeze h x dim name).
+Proof. apply h_op1_frame. Qed.
+Corollary h_flatten_frame (h : heap) x dim name : frame_ok h (h_flatten h x dim name).
+Proof. apply h_op1_frame. Qed.
+Corollary h_broadcast_frame (h : heap) x shape name : frame_ok h (h_broadcast h x shape name).
+Proof. apply h_op1_frame. Qed.
+Corollary h_reduceAlong_frame (h : heap) r x dim name : frame_ok h (h_reduceAlong h r x dim name).
+Proof. apply h_op1_frame. Qed.
+Corollary h_scale_frame (h : heap) x a name : frame_ok h (h_scale h x a name).
+Proof. apply h_op1_frame. Qed.
+Corollary h_pow_frame (h : heap) x a az name : frame_ok h (h_pow h x a az name).
+Proof. apply h_op1_frame. Qed.
+Corollary h_math_frame (h : heap) fn x name : frame_ok h (h_math h fn x name).
+Proof. apply h_op1_frame. Qed.
+
+(* leaf creation *)
+Lemma leaf_frame (h : heap) v tracked name :
+  leaf h v tracked name = (h ++ [mkNode v tracked false None [] name], length h).
+Proof. reflexivity. Qed.
+
+
+(* ================================================================== *)
+(*  B. the tracking rule                                               *)
+(* ================================================================== *)
+
+Lemma ctx_rule1 (h : heap) x n : ctx_rule h [x] n ->
+  ntracked n = trackedOf h x && negb (dirtyOf h x) /\ ndirty n = dirtyOf h x.
+Proof.
+  intros (Ht & Hd & _ & _). cbn [existsb] in Ht, Hd. rewrite !orb_false_r in Ht. rewrite !orb_false_r in Hd. split; assumption.
+Qed.
+
+Lemma ctx_rule2 (h : heap) x u n : ctx_rule h [x; u] n ->
+  ntracked n = (trackedOf h x || trackedOf h u) && negb (dirtyOf h x) && negb (dirtyOf h u) /\
+  ndirty n = dirtyOf h x || dirtyOf h u.
+Proof.
+  intros (Ht & Hd & _ & _). cbn [existsb] in Ht, Hd. rewrite !orb_false_r in Ht. rewrite !orb_false_r in Hd. split; [|assumption].
+  rewrite Ht. rewrite negb_orb. rewrite andb_assoc. reflexivity.
+Qed.
+
+(* any operand spent -> result untracked, spent, without edges *)
+Lemma ctx_rule_dirty (h : heap) ops n x : ctx_rule h ops n -> In x ops -> dirtyOf h x = true ->
+  ntracked n = false /\ ndirty n = true /\ nedges n = [].
+Proof.
+  intros (Ht & Hd & He & _) Hx Hdx.
+  assert (E : existsb (dirtyOf h) ops = true) by (apply existsb_exists; exists x; auto).
+  rewrite E in Ht, Hd. rewrite andb_false_r in Ht. auto.
+Qed.
+
+(* no operand tracked -> result untracked *)
+Lemma ctx_rule_untracked (h : heap) ops n : ctx_rule h ops n ->
+  (forall x, In x ops -> trackedOf h x = false) -> ntracked n = false /\ nedges n = [].
+Proof.
+  intros (Ht & Hd & He & _) Hx.
+  assert (E : existsb (trackedOf h) ops = false).
+  { destruct (existsb (trackedOf h) ops) eqn:E; [|reflexivity].
+    apply existsb_exists in E as (x & Hin & Hxt). rewrite (Hx x Hin) in Hxt. discriminate. }
+  rewrite E in Ht. cbn in Ht. auto.
+Qed.
+
+(* tracked exactly when some operand is tracked and none is spent *)
+Lemma ctx_rule_tracked_iff (h : heap) ops n : ctx_rule h ops n ->
+  (ntracked n = true <-> (exists x, In x ops /\ trackedOf h x = true) /\ (forall x, In x ops -> dirtyOf h x = false)).
+Proof.
+  intros (Ht & _). rewrite Ht, andb_true_iff, negb_true_iff, existsb_exists. split.
+  - intros [H1 H2]. split; [exact H1|]. intros x Hx. destruct (dirtyOf h x) eqn:E; [|reflexivity].
+    assert (X : existsb (dirtyOf h) ops = true) by (apply existsb_exists; exists x; auto). congruence.
+  - intros [H1 H2]. split; [exact H1|]. destruct (existsb (dirtyOf h) ops) eqn:E; [|reflexivity].
+    apply existsb_exists in E as (x & Hin & Hxd). rewrite (H2 x Hin) in Hxd. discriminate.
+Qed.
+
+Theorem h_op1_track (h : heap) x f mk name h' id : h_op1 h x f mk name = (h', Ok id) ->
+  exists n, nth_error h' id = Some n /\ ctx_rule h [x] n /\ nname n = name /\
+    (exists xv, valOf h x = Some xv /\ f xv = Ok (nval n)) /\
+    (ntracked n = true -> nedges n = [(x, mk id)]) /\
+    Forall (fun e : nat * rule => fst e < id) (nedges n).
+Proof.
+  intros E. apply h_op1_inv in E. destruct E as (xv & v & Hx & Hf & -> & ->).
+  eexists. split; [apply nth_error_snoc_new|]. split; [apply ctxNode_rule|]. split; [reflexivity|].
+  split; [exists xv; auto|]. split; [apply ctxNode_edges_tracked|].
+  apply ctxNode_edges_Forall. constructor; [|constructor]. cbn. eapply valOf_some_lt; eauto.
+Qed.
+
+Theorem h_cmp_track (h : heap) b x u name h' id : h_cmp h b x u name = (h', Ok id) ->
+  exists n, nth_error h' id = Some n /\
+    ntracked n = false /\ ndirty n = false /\ nedges n = [] /\ ngrad n = None /\ nname n = name /\
+    (exists xv uv, valOf h x = Some xv /\ valOf h u = Some uv /\ v_same b xv uv = Ok (nval n)).
+Proof.
+  intros E. apply h_cmp_inv in E. destruct E as (xv & uv & v & Hx & Hu & Hf & -> & ->).
+  eexists. split; [apply nth_error_snoc_new|]. cbn. repeat split. exists xv, uv. auto.
+Qed.
+
+Theorem h_elsel_track (h : heap) b x u name h' id : h_elsel h b x u name = (h', Ok id) ->
+  exists n, nth_error h' id = Some n /\ ctx_rule h [x; u] n /\ nname n = name /\
+    (exists xv uv, valOf h x = Some xv /\ valOf h u = Some uv /\ v_same b xv uv = Ok (nval n)) /\
+    (ntracked n = true -> nedges n = [(x, RElSel id x u); (u, RElSel id u x)]) /\
+    Forall (fun e : nat * rule => fst e < id) (nedges n).
+Proof.
+  intros E. apply h_elsel_inv in E. destruct E as (xv & uv & v & Hx & Hu & Hf & -> & ->).
+  eexists. split; [apply nth_error_snoc_new|]. split; [apply ctxNode_rule|]. split; [reflexivity|].
+  split; [exists xv, uv; auto|]. split; [apply ctxNode_edges_tracked|].
+  apply ctxNode_edges_Forall. repeat constructor; cbn; eapply valOf_some_lt; eauto.
+Qed.
+
+Theorem h_patch_track (h : heap) x index p name h' id : h_patch h x index p name = (h', Ok id) ->
+  exists n, nth_error h' id = Some n /\ ctx_rule h [x; p] n /\ nname n = name /\
+    (exists xv pv, valOf h x = Some xv /\ valOf h p = Some pv /\ v_patch xv index pv = Ok (nval n)) /\
+    (ntracked n = true -> nedges n = [(x, RPatchX id p index); (p, RPatchP id p index)]) /\
+    Forall (fun e : nat * rule => fst e < id) (nedges n).
+Proof.
+  intros E. apply h_patch_inv in E. destruct E as (xv & pv & v & Hx & Hp & Hf & -> & ->).
+  eexists. split; [apply nth_error_snoc_new|]. split; [apply ctxNode_rule|]. split; [reflexivity|].
+  split; [exists xv, pv; auto|]. split; [apply ctxNode_edges_tracked|].
+  apply ctxNode_edges_Forall. repeat constructor; cbn; eapply valOf_some_lt; eauto.
+Qed.
+
+Lemma concatEdges_targets y dim : forall (xs : list (nat * T)) base e,
+  In e (concatEdges y dim xs base) -> In (fst e) (map fst xs).
+Proof.
+  induction xs as [|[x xv] xs IH]; intros base e He; cbn in He; [contradiction|].
+  destruct He as [<-|He]; [left; reflexivity|]. right. eapply IH; eauto.
+Qed.
+
+Lemma concatEdges_map_fst y dim : forall (xs : list (nat * T)) base,
+  map fst (concatEdges y dim xs base) = map fst xs.
+Proof.
+  induction xs as [|[x xv] xs IH]; intros base; cbn; [reflexivity|]. rewrite IH. reflexivity.
+Qed.
+
+Lemma mapM_valOf_lt (h : heap) xs vs : mapM (valOf h) xs = Some vs -> forall x, In x xs -> x < length h.
+Proof.
+  intros H x Hx. destruct (In_nth_error _ _ Hx) as [i Hi].
+  destruct (mapM_nth _ _ _ H _ _ Hi) as (y & _ & Hy). eapply valOf_some_lt; eauto.
+Qed.
+
+Theorem h_concat_track (h : heap) xs dim name h' id : h_concat h xs dim name = (h', Ok id) ->
+  exists n, nth_error h' id = Some n /\ ctx_rule h xs n /\ nname n = name /\
+    (exists vs, mapM (valOf h) xs = Some vs /\ v_concat vs dim = Ok (nval n) /\
+       (ntracked n = true -> map fst (nedges n) = xs)) /\
+    Forall (fun e : nat * rule => fst e < id) (nedges n).
+Proof.
+  intros E. apply h_concat_inv in E. destruct E as (vs & v & Hx & Hf & -> & ->).
+  eexists. split; [apply nth_error_snoc_new|]. split; [apply ctxNode_rule|]. split; [reflexivity|].
+  split.
+  - exists vs. split; [exact Hx|]. split; [exact Hf|]. intros Ht. rewrite (ctxNode_edges_tracked _ _ _ _ _ Ht).
+    rewrite concatEdges_map_fst. apply NdP.mapM_length in Hx.
+    clear -Hx. revert vs Hx. induction xs as [|x xs IH]; intros [|w vs] Hl; cbn in *; try discriminate; [reflexivity|].
+    f_equal. apply IH. congruence.
+  - apply ctxNode_edges_Forall. apply Forall_forall. intros e He.
+    apply concatEdges_targets in He. apply in_map_iff in He as ([x0 v0] & Hfst & Hin). cbn in Hfst. subst x0.
+    apply in_combine_l in Hin. eapply mapM_valOf_lt; eauto.
+Qed.
+
+(* binary operators: the flags pass through the two internal Broadcast results *)
+Lemma bnode1_rule (h : heap) x v1 : ctx_rule h [x] (bnode1 h x v1).
+Proof. apply ctxNode_rule. Qed.
+
+Lemma bnode2_rule (h : heap) x u v1 v2 : u < length h -> ctx_rule h [u] (bnode2 h x u v1 v2).
+Proof.
+  intros Hu. pose proof (ctxNode_rule (h ++ [bnode1 h x v1]) [u] [(u, RBroadcast (S (length h)) u)] v2 None) as R.
+  fold (bnode2 h x u v1 v2) in R. destruct R as (Rt & Rd & Re & Rg).
+  cbn [existsb] in Rt, Rd. rewrite trackedOf_app in Rt by exact Hu. rewrite dirtyOf_app in Rt, Rd by exact Hu.
+  unfold ctx_rule. cbn [existsb]. auto.
+Qed.
+
+Lemma rnode_rule (h : heap) x u v1 v2 v edges name :
+  x < length h -> u < length h -> ctx_rule h [x; u] (rnode h x u v1 v2 v edges name).
+Proof.
+  intros Hx Hu.
+  pose proof (ctxNode_rule (h ++ [bnode1 h x v1] ++ [bnode2 h x u v1 v2]) [length h; S (length h)]
+                (edges (S (S (length h))) (length h) (S (length h))) v name) as R.
+  fold (rnode h x u v1 v2 v edges name) in R. destruct R as (Rt & Rd & Re & Rg).
+  assert (T1 : trackedOf (h ++ [bnode1 h x v1] ++ [bnode2 h x u v1 v2]) (length h) = ntracked (bnode1 h x v1)).
+  { rewrite app_assoc. rewrite trackedOf_app by (rewrite app_length; cbn; lia). apply trackedOf_new. }
+  assert (D1 : dirtyOf (h ++ [bnode1 h x v1] ++ [bnode2 h x u v1 v2]) (length h) = ndirty (bnode1 h x v1)).
+  { rewrite app_assoc. rewrite dirtyOf_app by (rewrite app_length; cbn; lia). apply dirtyOf_new. }
+  assert (T2 : trackedOf (h ++ [bnode1 h x v1] ++ [bnode2 h x u v1 v2]) (S (length h)) = ntracked (bnode2 h x u v1 v2)).
+  { rewrite app_assoc. replace (S (length h)) with (length (h ++ [bnode1 h x v1])) by (rewrite app_length; cbn; lia).
+    apply trackedOf_new. }
+  assert (D2 : dirtyOf (h ++ [bnode1 h x v1] ++ [bnode2 h x u v1 v2]) (S (length h)) = ndirty (bnode2 h x u v1 v2)).
+  { rewrite app_assoc. replace (S (length h)) with (length (h ++ [bnode1 h x v1])) by (rewrite app_length; cbn; lia).
+    apply dirtyOf_new. }
+  cbn [existsb] in Rt, Rd. rewrite T1, T2, D1, D2 in Rt. rewrite D1, D2 in Rd.
+  destruct (ctx_rule1 _ _ _ (bnode1_rule h x v1)) as [B1t B1d].
+  destruct (ctx_rule1 _ _ _ (bnode2_rule h x u v1 v2 Hu)) as [B2t B2d].
+  rewrite B1t, B2t, B1d, B2d in Rt. rewrite B1d, B2d in Rd.
+  unfold ctx_rule. cbn [existsb]. split; [|split; [exact Rd|split; [exact Re|exact Rg]]].
+  rewrite Rt. destruct (trackedOf h x), (trackedOf h u), (dirtyOf h x), (dirtyOf h u); reflexivity.
+Qed.
+
+(* the composite rule for a binary operator whose operands exist in [h] *)
+Theorem h_binop_track (h : heap) x u s1 s2 f edges name h' id :
+  x < length h -> u < length h ->
+  (forall y a1 a2 e, In e (edges y a1 a2) -> fst e = a1 \/ fst e = a2) ->
+  h_binop h x u s1 s2 f edges name = (h', Ok id) ->
+  exists n b1 b2, nth_error h' id = Some n /\ ctx_rule h [x; u] n /\ nname n = name /\
+    id = S (S (length h)) /\
+    nth_error h' (length h) = Some b1 /\ nth_error h' (S (length h)) = Some b2 /\
+    ctx_rule h [x] b1 /\ ctx_rule h [u] b2 /\ nname b1 = None /\ nname b2 = None /\
+    (ntracked b1 = true -> nedges b1 = [(x, RBroadcast (length h) x)]) /\
+    (ntracked b2 = true -> nedges b2 = [(u, RBroadcast (S (length h)) u)]) /\
+    (exists xv uv, valOf h x = Some xv /\ valOf h u = Some uv /\
+        v_broadcast xv s1 = Ok (nval b1) /\ v_broadcast uv s2 = Ok (nval b2) /\ f (nval b1) (nval b2) = Some (nval n)) /\
+    (ntracked n = true -> nedges n = edges id (length h) (S (length h))) /\
+    Forall (fun e : nat * rule => fst e < id) (nedges n).
+Proof.
+  intros Hx Hu Hed E. apply h_binop_inv in E.
+  destruct E as (xv & uv & v1 & v2 & v & Vx & B1 & Vu & B2 & Hf & -> & ->).
+  rewrite valOf_app in Vu by exact Hu.
+  exists (rnode h x u v1 v2 v edges name), (bnode1 h x v1), (bnode2 h x u v1 v2).
+  split.
+  { change (h ++ [bnode1 h x v1; bnode2 h x u v1 v2; rnode h x u v1 v2 v edges name])
+      with (h ++ [bnode1 h x v1; bnode2 h x u v1 v2] ++ [rnode h x u v1 v2 v edges name]).
+    rewrite app_assoc. replace (S (S (length h))) with (length (h ++ [bnode1 h x v1; bnode2 h x u v1 v2]))
+      by (rewrite app_length; cbn; lia). apply nth_error_snoc_new. }
+  split; [apply rnode_rule; assumption|]. split; [reflexivity|]. split; [reflexivity|].
+  split; [rewrite nth_error_app2 by lia; rewrite Nat.sub_diag; reflexivity|].
+  split; [rewrite nth_error_app2 by lia; replace (S (length h) - length h) with 1 by lia; reflexivity|].
+  split; [apply bnode1_rule|]. split; [apply bnode2_rule; exact Hu|]. split; [reflexivity|]. split; [reflexivity|].
+  split; [apply ctxNode_edges_tracked|]. split; [apply ctxNode_edges_tracked|].
+  split; [exists xv, uv; auto|].
+  split; [apply ctxNode_edges_tracked|].
+  apply ctxNode_edges_Forall. apply Forall_forall. intros e He. destruct (Hed _ _ _ _ He) as [-> | ->]; lia.
+Qed.
+
+Lemma arithEdges_targets b y a1 a2 (e : nat * rule) : In e (arithEdges b y a1 a2) -> fst e = a1 \/ fst e = a2.
+Proof.
+  destruct b; cbn; intros H; try contradiction;
+    (destruct H as [<-|[<-|[]]]; [left; reflexivity|right; reflexivity]).
+Qed.
+
+(* Add / Sub / Mul / Div in terms of the ORIGINAL operands *)
+Theorem h_arith_track (h : heap) b x u name h' id : h_arith h b x u name = (h', Ok id) ->
+  exists n, nth_error h' id = Some n /\ ctx_rule h [x; u] n /\ nname n = name /\ id = S (S (length h)) /\
+    (exists xv uv, valOf h x = Some xv /\ valOf h u = Some uv /\ v_arith b xv uv = Ok (nval n)) /\
+    (ntracked n = true -> nedges n = arithEdges b id (length h) (S (length h))) /\
+    Forall (fun e : nat * rule => fst e < id) (nedges n).
+Proof.
+  unfold h_arith. destruct (valOf h x) as [xv|] eqn:Vx; [destruct (valOf h u) as [uv|] eqn:Vu|]; try discriminate.
+  intros E. apply h_binop_track in E.
+  - destruct E as (n & b1 & b2 & Hn & Hr & Hnm & Hid & _ & _ & _ & _ & _ & _ & _ & _ & Hv & He & Hf).
+    exists n. repeat (split; [assumption|]). split; [|split; assumption].
+    destruct Hv as (xv' & uv' & Vx' & Vu' & B1 & B2 & Hfv).
+    exists xv, uv. split; [reflexivity|]. split; [reflexivity|].
+    assert (xv' = xv) by congruence. assert (uv' = uv) by congruence. subst xv' uv'.
+    unfold v_arith, v_bcast2. rewrite B1. cbn [res_bind]. rewrite B2. cbn [res_bind fst snd]. rewrite Hfv. reflexivity.
+  - eapply valOf_some_lt; eauto.
+  - eapply valOf_some_lt; eauto.
+  - apply arithEdges_targets.
+Qed.
+
+Theorem h_dot_track (h : heap) x u name h' id : h_dot h x u name = (h', Ok id) ->
+  exists n, nth_error h' id = Some n /\ ctx_rule h [x; u] n /\ nname n = name /\ id = S (S (length h)) /\
+    (exists xv uv, valOf h x = Some xv /\ valOf h u = Some uv /\ v_dot xv uv = Ok (nval n)) /\
+    (ntracked n = true -> nedges n = [(length h, RDot id (S (length h))); (S (length h), RDot id (length h))]) /\
+    Forall (fun e : nat * rule => fst e < id) (nedges n).
+Proof.
+  unfold h_dot. destruct (valOf h x) as [xv|] eqn:Vx; [destruct (valOf h u) as [uv|] eqn:Vu|]; try discriminate.
+  destruct (validateDotProductDims (zdims xv) (zdims uv)) eqn:Ev; [|discriminate].
+  intros E. apply h_binop_track in E.
+  - destruct E as (n & b1 & b2 & Hn & Hr & Hnm & Hid & _ & _ & _ & _ & _ & _ & _ & _ & Hv & He & Hf).
+    exists n. repeat (split; [assumption|]). split; [|split; assumption].
+    destruct Hv as (xv' & uv' & Vx' & Vu' & B1 & B2 & Hfv).
+    exists xv, uv. split; [reflexivity|]. split; [reflexivity|].
+    assert (xv' = xv) by congruence. assert (uv' = uv) by congruence. subst xv' uv'.
+    unfold v_dot, v_bcast2. rewrite Ev, B1. cbn [res_bind]. rewrite B2. cbn [res_bind fst snd]. rewrite Hfv. reflexivity.
+  - eapply valOf_some_lt; eauto.
+  - eapply valOf_some_lt; eauto.
+  - intros y a1 a2 e [<-|[<-|[]]]; [left|right]; reflexivity.
+Qed.
+
+Theorem h_matmul_track (h : heap) x u name h' id : h_matmul h x u name = (h', Ok id) ->
+  exists n, nth_error h' id = Some n /\ ctx_rule h [x; u] n /\ nname n = name /\ id = S (S (length h)) /\
+    (exists xv uv, valOf h x = Some xv /\ valOf h u = Some uv /\ v_matmul xv uv = Ok (nval n)) /\
+    (ntracked n = true -> nedges n = [(length h, RMatMulA id (S (length h))); (S (length h), RMatMulB id (length h))]) /\
+    Forall (fun e : nat * rule => fst e < id) (nedges n).
+Proof.
+  unfold h_matmul. destruct (valOf h x) as [xv|] eqn:Vx; [destruct (valOf h u) as [uv|] eqn:Vu|]; try discriminate.
+  destruct (validateMatMulDims (zdims xv) (zdims uv)) eqn:Ev; [|discriminate].
+  intros E. apply h_binop_track in E.
+  - destruct E as (n & b1 & b2 & Hn & Hr & Hnm & Hid & _ & _ & _ & _ & _ & _ & _ & _ & Hv & He & Hf).
+    exists n. repeat (split; [assumption|]). split; [|split; assumption].
+    destruct Hv as (xv' & uv' & Vx' & Vu' & B1 & B2 & Hfv).
+    exists xv, uv. split; [reflexivity|]. split; [reflexivity|].
+    assert (xv' = xv) by congruence. assert (uv' = uv) by congruence. subst xv' uv'.
+    unfold v_matmul, v_bcastMM. rewrite Ev, B1. cbn [res_bind]. rewrite B2. cbn [res_bind fst snd]. rewrite Hfv. reflexivity.
+  - eapply valOf_some_lt; eauto.
+  - eapply valOf_some_lt; eauto.
+  - intros y a1 a2 e [<-|[<-|[]]]; [left|right]; reflexivity.
+Qed.
+
+
+(* ---------- every method preserves wf_heap (back edges point at older tensors) ---------- *)
+Theorem h_op1_wf (h : heap) x f mk name : wf_heap h -> wf_heap (fst (h_op1 h x f mk name)).
+Proof.
+  intros W. destruct (h_op1 h x f mk name) as [h' r] eqn:E. apply h_op1_inv in E. cbn [fst].
+  destruct r as [id| |]; [|subst; exact W|subst; exact W].
+  destruct E as (xv & v & Hx & _ & _ & ->). apply wf_heap_snoc; [exact W|].
+  apply ctxNode_edges_Forall. constructor; [|constructor]. cbn. eapply valOf_some_lt; eauto.
+Qed.
+
+Theorem h_cmp_wf (h : heap) b x u name : wf_heap h -> wf_heap (fst (h_cmp h b x u name)).
+Proof.
+  intros W. destruct (h_cmp h b x u name) as [h' r] eqn:E. apply h_cmp_inv in E. cbn [fst].
+  destruct r as [id| |]; [|subst; exact W|subst; exact W].
+  destruct E as (xv & uv & v & _ & _ & _ & _ & ->). apply wf_heap_snoc; [exact W|]. constructor.
+Qed.
+
+Theorem h_elsel_wf (h : heap) b x u name : wf_heap h -> wf_heap (fst (h_elsel h b x u name)).
+Proof.
+  intros W. destruct (h_elsel h b x u name) as [h' r] eqn:E. apply h_elsel_inv in E. cbn [fst].
+  destruct r as [id| |]; [|subst; exact W|subst; exact W].
+  destruct E as (xv & uv & v & Hx & Hu & _ & _ & ->). apply wf_heap_snoc; [exact W|].
+  apply ctxNode_edges_Forall. repeat constructor; cbn; eapply valOf_some_lt; eauto.
+Qed.
+
+Theorem h_patch_wf (h : heap) x index p name : wf_heap h -> wf_heap (fst (h_patch h x index p name)).
+Proof.
+  intros W. destruct (h_patch h x index p name) as [h' r] eqn:E. apply h_patch_inv in E. cbn [fst].
+  destruct r as [id| |]; [|subst; exact W|subst; exact W].
+  destruct E as (xv & uv & v & Hx & Hu & _ & _ & ->). apply wf_heap_snoc; [exact W|].
+  apply ctxNode_edges_Forall. repeat constructor; cbn; eapply valOf_some_lt; eauto.
+Qed.
+
+Theorem h_concat_wf (h : heap) xs dim name : wf_heap h -> wf_heap (fst (h_concat h xs dim name)).
+Proof.
+  intros W. destruct (h_concat h xs dim name) as [h' r] eqn:E. apply h_concat_inv in E. cbn [fst].
+  destruct r as [id| |]; [|subst; exact W|subst; exact W].
+  destruct E as (vs & v & Hx & _ & _ & ->). apply wf_heap_snoc; [exact W|].
+  apply ctxNode_edges_Forall. apply Forall_forall. intros e He.
+  apply concatEdges_targets in He. apply in_map_iff in He as ([x0 v0] & Hfst & Hin). cbn in Hfst. subst x0.
+  apply in_combine_l in Hin. eapply mapM_valOf_lt; eauto.
+Qed.
+
+Theorem h_binop_wf (h : heap) x u s1 s2 f edges name :
+  (forall y a1 a2 e, In e (edges y a1 a2) -> fst e = a1 \/ fst e = a2) ->
+  wf_heap h -> wf_heap (fst (h_binop h x u s1 s2 f edges name)).
+Proof.
+  intros Hed W. destruct (h_binop h x u s1 s2 f edges name) as [h' r] eqn:E. apply h_binop_inv in E. cbn [fst].
+  destruct r as [id| |]; [|subst; exact W|subst; exact W].
+  destruct E as (xv & uv & v1 & v2 & v & Vx & _ & Vu & _ & _ & _ & ->).
+  change (h ++ [bnode1 h x v1; bnode2 h x u v1 v2; rnode h x u v1 v2 v edges name])
+    with (h ++ [bnode1 h x v1] ++ [bnode2 h x u v1 v2] ++ [rnode h x u v1 v2 v edges name]).
+  rewrite !app_assoc. apply wf_heap_snoc; [apply wf_heap_snoc; [apply wf_heap_snoc; [exact W|]|]|].
+  - apply ctxNode_edges_Forall. constructor; [|constructor]. cbn. eapply valOf_some_lt; eauto.
+  - apply ctxNode_edges_Forall. constructor; [|constructor]. cbn. eapply valOf_some_lt; eauto.
+  - apply ctxNode_edges_Forall. apply Forall_forall. intros e He. rewrite !app_length. cbn [length].
+    destruct (Hed _ _ _ _ He) as [-> | ->]; lia.
+Qed.
+
+Theorem h_arith_wf (h : heap) b x u name : wf_heap h -> wf_heap (fst (h_arith h b x u name)).
+Proof.
+  intros W. unfold h_arith. destruct (valOf h x) as [xv|]; [destruct (valOf h u) as [uv|]|]; try exact W.
+  apply h_binop_wf; [apply arithEdges_targets|exact W].
+Qed.
+
+Theorem h_dot_wf (h : heap) x u name : wf_heap h -> wf_heap (fst (h_dot h x u name)).
+Proof.
+  intros W. unfold h_dot. destruct (valOf h x) as [xv|]; [destruct (valOf h u) as [uv|]|]; try exact W.
+  destruct (validateDotProductDims (zdims xv) (zdims uv)); [|exact W].
+  apply h_binop_wf; [|exact W]. intros y a1 a2 e [<-|[<-|[]]]; [left|right]; reflexivity.
+Qed.
+
+Theorem h_matmul_wf (h : heap) x u name : wf_heap h -> wf_heap (fst (h_matmul h x u name)).
+Proof.
+  intros W. unfold h_matmul. destruct (valOf h x) as [xv|]; [destruct (valOf h u) as [uv|]|]; try exact W.
+  destruct (validateMatMulDims (zdims xv) (zdims uv)); [|exact W].
+  apply h_binop_wf; [|exact W]. intros y a1 a2 e [<-|[<-|[]]]; [left|right]; reflexivity.
+Qed.
+
+Lemma leaf_wf (h : heap) v tracked name : wf_heap h -> wf_heap (fst (leaf h v tracked name)).
+Proof. intros W. rewrite leaf_eq. cbn [fst]. apply wf_heap_snoc; [exact W|constructor]. Qed.
+
+(* ================================================================== *)
+(*  C. forward values and outcomes do not depend on the contexts       *)
+(* ================================================================== *)
+
+Definition sim {X} (a b : heap * res X) : Prop := snd a = snd b /\ erase (fst a) = erase (fst b).
+
+Lemma sim_same {X} (h1 h2 : heap) (r : res X) : erase h1 = erase h2 -> sim (h1, r) (h2, r).
+Proof. intros E. split; [reflexivity|exact E]. Qed.
+
+Lemma sim_alloc (h1 h2 : heap) v c1 c2 nm1 nm2 : erase h1 = erase h2 ->
+  sim (let '(h', id) := alloc h1 v c1 nm1 in (h', Ok id)) (let '(h', id) := alloc h2 v c2 nm2 in (h', Ok id)).
+Proof.
+  intros E. rewrite !alloc_eq. split; cbn [fst snd].
+  - rewrite (erase_eq_length _ _ E). reflexivity.
+  - unfold erase. rewrite !map_app. cbn. fold (erase h1). fold (erase h2). rewrite E. reflexivity.
+Qed.
+
+Theorem h_op1_values (h1 h2 : heap) x f mk1 mk2 nm1 nm2 : erase h1 = erase h2 ->
+  sim (h_op1 h1 x f mk1 nm1) (h_op1 h2 x f mk2 nm2).
+Proof.
+  intros E. unfold h_op1. rewrite (valOf_erase_eq _ _ E x). destruct (valOf h2 x) as [xv|]; [|apply sim_same; exact E].
+  destruct (f xv) as [v| |]; [|apply sim_same; exact E|apply sim_same; exact E].
+  rewrite (erase_eq_length _ _ E). apply sim_alloc. exact E.
+Qed.
+
+Theorem h_cmp_values (h1 h2 : heap) b x u nm1 nm2 : erase h1 = erase h2 ->
+  sim (h_cmp h1 b x u nm1) (h_cmp h2 b x u nm2).
+Proof.
+  intros E. unfold h_cmp. rewrite (valOf_erase_eq _ _ E x), (valOf_erase_eq _ _ E u).
+  destruct (valOf h2 x) as [xv|]; [|apply sim_same; exact E].
+  destruct (valOf h2 u) as [uv|]; [|apply sim_same; exact E].
+  destruct (v_same b xv uv) as [v| |]; [|apply sim_same; exact E|apply sim_same; exact E].
+  apply sim_alloc. exact E.
+Qed.
+
+Theorem h_elsel_values (h1 h2 : heap) b x u nm1 nm2 : erase h1 = erase h2 ->
+  sim (h_elsel h1 b x u nm1) (h_elsel h2 b x u nm2).
+Proof.
+  intros E. unfold h_elsel. rewrite (valOf_erase_eq _ _ E x), (valOf_erase_eq _ _ E u).
+  destruct (valOf h2 x) as [xv|]; [|apply sim_same; exact E].
+  destruct (valOf h2 u) as [uv|]; [|apply sim_same; exact E].
+  destruct (v_same b xv uv) as [v| |]; [|apply sim_same; exact E|apply sim_same; exact E].
+  apply sim_alloc. exact E.
+Qed.
+
+Theorem h_patch_values (h1 h2 : heap) x index p nm1 nm2 : erase h1 = erase h2 ->
+  sim (h_patch h1 x index p nm1) (h_patch h2 x index p nm2).
+Proof.
+  intros E. unfold h_patch. rewrite (valOf_erase_eq _ _ E x), (valOf_erase_eq _ _ E p).
+  destruct (valOf h2 x) as [xv|]; [|apply sim_same; exact E].
+  destruct (valOf h2 p) as [pv|]; [|apply sim_same; exact E].
+  destruct (v_patch xv index pv) as [v| |]; [|apply sim_same; exact E|apply sim_same; exact E].
+  apply sim_alloc. exact E.
+Qed.
+
+Theorem h_concat_values (h1 h2 : heap) xs dim nm1 nm2 : erase h1 = erase h2 ->
+  sim (h_concat h1 xs dim nm1) (h_concat h2 xs dim nm2).
+Proof.
+  intros E. unfold h_concat.
+  rewrite (NdP.mapM_ext (valOf h1) (valOf h2) xs) by (intros x _; apply valOf_erase_eq; exact E).
+  destruct (mapM (valOf h2) xs) as [vs|]; [|apply sim_same; exact E].
+  destruct (v_concat vs dim) as [v| |]; [|apply sim_same; exact E|apply sim_same; exact E].
+  apply sim_alloc. exact E.
+Qed.
+
+Lemma h_bcast2_values (h1 h2 : heap) x u s1 s2 : erase h1 = erase h2 ->
+  sim (h_bcast2 h1 x u s1 s2) (h_bcast2 h2 x u s1 s2).
+Proof.
+  intros E. unfold h_bcast2, h_broadcast.
+  pose proof (h_op1_values h1 h2 x (fun v => v_broadcast v s1) (fun y => RBroadcast y x) (fun y => RBroadcast y x) None None E) as S1.
+  destruct (h_op1 h1 x (fun v => v_broadcast v s1) (fun y => RBroadcast y x) None) as [k1 r1].
+  destruct (h_op1 h2 x (fun v => v_broadcast v s1) (fun y => RBroadcast y x) None) as [k2 r2].
+  destruct S1 as [Sr Se]. cbn [fst snd] in Sr, Se. subst r2.
+  destruct r1 as [b1| |]; [|apply sim_same; exact E|apply sim_same; exact E].
+  pose proof (h_op1_values k1 k2 u (fun v => v_broadcast v s2) (fun y => RBroadcast y u) (fun y => RBroadcast y u) None None Se) as S2.
+  destruct (h_op1 k1 u (fun v => v_broadcast v s2) (fun y => RBroadcast y u) None) as [m1 q1].
+  destruct (h_op1 k2 u (fun v => v_broadcast v s2) (fun y => RBroadcast y u) None) as [m2 q2].
+  destruct S2 as [Tr Te]. cbn [fst snd] in Tr, Te. subst q2.
+  destruct q1 as [b2| |]; [|apply sim_same; exact E|apply sim_same; exact E].
+  split; [reflexivity|exact Te].
+Qed.
+
+Theorem h_binop_values (h1 h2 : heap) x u s1 s2 f ed1 ed2 nm1 nm2 : erase h1 = erase h2 ->
+  sim (h_binop h1 x u s1 s2 f ed1 nm1) (h_binop h2 x u s1 s2 f ed2 nm2).
+Proof.
+  intros E. unfold h_binop. pose proof (h_bcast2_values h1 h2 x u s1 s2 E) as S1.
+  destruct (h_bcast2 h1 x u s1 s2) as [k1 r1]. destruct (h_bcast2 h2 x u s1 s2) as [k2 r2].
+  destruct S1 as [Sr Se]. cbn [fst snd] in Sr, Se. subst r2.
+  destruct r1 as [[b1 b2]| |]; [|apply sim_same; exact E|apply sim_same; exact E].
+  rewrite (valOf_erase_eq _ _ Se b1), (valOf_erase_eq _ _ Se b2).
+  destruct (valOf k2 b1) as [v1|]; [|apply sim_same; exact E].
+  destruct (valOf k2 b2) as [v2|]; [|apply sim_same; exact E].
+  destruct (f v1 v2) as [v|]; [|apply sim_same; exact E].
+  apply sim_alloc. exact Se.
+Qed.
+
+Theorem h_arith_values (h1 h2 : heap) b x u nm1 nm2 : erase h1 = erase h2 ->
+  sim (h_arith h1 b x u nm1) (h_arith h2 b x u nm2).
+Proof.
+  intros E. unfold h_arith. rewrite (valOf_erase_eq _ _ E x), (valOf_erase_eq _ _ E u).
+  destruct (valOf h2 x) as [xv|]; [|apply sim_same; exact E].
+  destruct (valOf h2 u) as [uv|]; [|apply sim_same; exact E].
+  apply h_binop_values. exact E.
+Qed.
+
+Theorem h_dot_values (h1 h2 : heap) x u nm1 nm2 : erase h1 = erase h2 ->
+  sim (h_dot h1 x u nm1) (h_dot h2 x u nm2).
+Proof.
+  intros E. unfold h_dot. rewrite (valOf_erase_eq _ _ E x), (valOf_erase_eq _ _ E u).
+  destruct (valOf h2 x) as [xv|]; [|apply sim_same; exact E].
+  destruct (valOf h2 u) as [uv|]; [|apply sim_same; exact E].
+  destruct (validateDotProductDims (zdims xv) (zdims uv)); [|apply sim_same; exact E].
+  apply h_binop_values. exact E.
+Qed.
+
+Theorem h_matmul_values (h1 h2 : heap) x u nm1 nm2 : erase h1 = erase h2 ->
+  sim (h_matmul h1 x u nm1) (h_matmul h2 x u nm2).
+Proof.
+  intros E. unfold h_matmul. rewrite (valOf_erase_eq _ _ E x), (valOf_erase_eq _ _ E u).
+  destruct (valOf h2 x) as [xv|]; [|apply sim_same; exact E].
+  destruct (valOf h2 u) as [uv|]; [|apply sim_same; exact E].
+  destruct (validateMatMulDims (zdims xv) (zdims uv)); [|apply sim_same; exact E].
+  apply h_binop_values. exact E.
+Qed.
+
+(* resetting contexts / changing tracking flags never changes [erase] *)
+Lemma erase_updNode (h : heap) i f : (forall n, nval (f n) = nval n) -> erase (updNode h i f) = erase h.
+Proof.
+  intros Hf. apply NdP.nth_error_ext_len.
+  - rewrite !erase_length. apply updNode_length.
+  - intros j _. unfold erase. rewrite !nth_error_map, updNode_nth.
+    destruct (nth_error h j) as [n|]; [|reflexivity]. cbn. destruct (j =? i); [rewrite Hf|]; reflexivity.
+Qed.
+
+(* ================================================================== *)
+(*  D. ResetGradContext                                                *)
+(* ================================================================== *)
+
+Theorem h_reset_spec (h : heap) x tracked :
+  length (h_reset h x tracked) = length h /\
+  (forall n, nth_error h x = Some n ->
+     nth_error (h_reset h x tracked) x = Some (mkNode (nval n) tracked false None [] (nname n))) /\
+  (forall j, j <> x -> nth_error (h_reset h x tracked) j = nth_error h j) /\
+  erase (h_reset h x tracked) = erase h.
+Proof.
+  unfold h_reset. split; [apply updNode_length|]. split; [|split].
+  - intros n Hn. rewrite updNode_nth_same, Hn. reflexivity.
+  - intros j Hj. apply updNode_nth_other. exact Hj.
+  - apply erase_updNode. reflexivity.
+Qed.
+
+Corollary h_reset_flags (h : heap) x tracked : x < length h ->
+  trackedOf (h_reset h x tracked) x = tracked /\ dirtyOf (h_reset h x tracked) x = false /\
+  gradOf (h_reset h x tracked) x = None /\ edgesOf (h_reset h x tracked) x = [] /\
+  valOf (h_reset h x tracked) x = valOf h x.
+Proof.
+  intros Hx. destruct (lt_nth_some h x Hx) as [n Hn].
+  destruct (h_reset_spec h x tracked) as (_ & Hs & _ & _). specialize (Hs n Hn).
+  unfold trackedOf, dirtyOf, gradOf, edgesOf, valOf. rewrite Hs, Hn. cbn. auto.
+Qed.
+
+Theorem h_reset_wf (h : heap) x tracked : wf_heap h -> wf_heap (h_reset h x tracked).
+Proof.
+  intros W i n Hi. unfold h_reset in Hi. rewrite updNode_nth in Hi.
+  destruct (nth_error h i) as [m|] eqn:Em; [|discriminate]. cbn in Hi.
+  destruct (i =? x); inversion Hi; subst n; cbn; [constructor|eapply W; eauto].
+Qed.
+
+(* ================================================================== *)
+(*  E1. back-propagation from an untracked root is a no-op             *)
+(* ================================================================== *)
+Theorem bp_untracked_root rd sealg (h : heap) root :
+  trackedOf h root = false -> bp_topo rd sealg h root = (h, [], Ok tt).
+Proof. intros H. unfold bp_topo. rewrite H. reflexivity. Qed.
+
 End TrackP.
